@@ -14,7 +14,7 @@ ALSO = ()
 INSITU = {"k": "tokenisation"}
 TECHNIQUE = "runtime monitoring: differential observer (chunked vs whole tokenisation, compared after detokenise) + history monitor on the carried state dictionary"
 RULE = ("seeded pieces laid out as bars (through the real sequences_split_bars with both re-quantisation settings, or Bars built "
-        "directly), with empty bars, signature changes and tracks of unequal length, x ALL 2^(n-1) partitions of the n <= 7 bars into "
+        "directly), with empty bars, bars filled by one note held from the first tick to the bar line, signature changes and tracks of unequal length, x ALL 2^(n-1) partitions of the n <= 7 bars into "
         "consecutive call groups (64 random partitions beyond) x configurations; each partition's concatenated token stream must "
         "detokenise to the same notes, bar grid (signatures in force and cap ticks) and duration as the single-call stream; after "
         "each call the state dictionary must say: clock = sum of bar lengths consumed, in-bar clock 0, remaining capacity a whole "
@@ -22,7 +22,7 @@ RULE = ("seeded pieces laid out as bars (through the real sequences_split_bars w
 PLAN = {"quick": {"cases": 700, "jobs": 4, "timeout": 900},
         "thorough": {"cases": 200000, "jobs": 16, "timeout": 3000, "budget_s": 360}}
 FLOORS = {"quick": {"c03.partitions_compared": 6000, "c03.state_checked": 15000, "#c03.flags.": 16, "c03.signature_change": 100,
-                    "c03.empty_bar": 100},
+                    "c03.empty_bar": 100, "c03.whole_bar_note": 40},
           "thorough": {"c03.partitions_compared": 300000, "#c03.flags.": 16}}
 GRID = lambda x: x % 4 == 0 or x % 6 == 0  # noqa: E731
 
@@ -36,7 +36,19 @@ def make_case(rng, i, tier):
     route = rng.choice(["split_q", "split_noq", "direct", "raw"])
     pc = gen.piece(rng, ntracks=cfg["tracks"], lens=gen.DEFAULT_NOTE_VALUES, ongrid=GRID, ragged=(route != "raw"), keys=False,
                    cross_bars=(route not in ("direct", "raw")) and rng.random() < 0.5, meta=0, nseg=(1, 3), nbars=(1, 3), max_notes=7,
-                   sigs=[(4, 4), (3, 4), (6, 8), (2, 4), (5, 4), (2, 2), (7, 8)], pitches=(60, 62, 72))
+                   sigs=[(4, 4), (3, 4), (6, 8), (2, 4), (5, 4), (2, 2), (7, 8), (3, 8)], pitches=(60, 62, 72))
+    if route == "direct" and rng.random() < 0.6:
+        # bars filled by a single note held from the first tick to the bar line (the bar's last message is a note-off on the
+        # bar line, there is no trailing rest and every onset sits on the first tick), followed by ordinary bars
+        cfg["values"] = sorted(set(gen.DEFAULT_NOTE_VALUES + [b[1] for b in pc["bars"]]))
+        for t in pc["tracks"][:1]:
+            for (b0, bl, sig) in pc["bars"]:
+                if rng.random() < 0.4:
+                    t["notes"] = [n for n in t["notes"] if not (b0 <= n[2] < b0 + bl)] + [[0, 60, b0, bl, 77]]
+        for t in pc["tracks"][1:]:
+            for (b0, bl, sig) in pc["bars"]:
+                if rng.random() < 0.5:
+                    t["notes"] = [n for n in t["notes"] if not (b0 <= n[2] < b0 + bl)]
     if route == "raw":
         # chunks are plain pieces of the whole-bar padded tracks (no Bar objects, hence no signature event at every bar
         # start): the carried state dictionary is the only memory of the signature in force
@@ -155,6 +167,8 @@ def run(case, ctx):
             break
     if len(set(sigs)) > 1:
         LOG.n("c03.signature_change")
+    if any(n[3] == bl and n[2] == b0 for t in pc["tracks"] for n in t["notes"] for (b0, bl, _s) in pc["bars"]):
+        LOG.n("c03.whole_bar_note")
     if any(chunk_empty(k, k + 1) for k in range(nb)):
         LOG.n("c03.empty_bar")
     notes_after_first = any(n[2] >= lens[0] for r in ref for n in r["notes"])
